@@ -385,6 +385,7 @@ class AerotechBase(EBPFTerminal):
             bases[SyncManager.OUT] = (BaseType.NO_FMMU, packet.size)
             packet.append_writer(ECCmd.FPWR, b"\0" * self.out_size, 0,
                                  self.position, self.pdo_out_off)
-            packet.append_writer(ECCmd.FPWR, b"3", 0, self.position,
-                                 self.pdo_out_off + self.pdo_out_sz - 1)
+            if self.out_size < self.pdo_out_sz:  # else we wrote it already
+                packet.append_writer(ECCmd.FPWR, b"3", 0, self.position,
+                                     self.pdo_out_off + self.pdo_out_sz - 1)
         return bases
